@@ -111,6 +111,84 @@ def run(ctx, replay=None):
         prog, g = P.gen_program(rng, depth=rng.randint(2, ctx.scale(6, 9)), ops=P.MINI_OPS, zero_axes=0.0, basic_only=True)
         corr.append(prog)
     block_correspondence(ctx, corr)
+    dtype_stream(ctx)
+
+
+def dtype_stream(ctx):
+    """Advertised dtype vs computed dtype of the result and of every block, on programs whose
+    advertised dtype differs from the input dtype (explicit dtype=, promoting reductions, nan-reductions
+    over sliding windows, astype) followed by rewrites that rebuild the node (take, slices, rechunk)."""
+    import dask
+    import dask_array as da
+
+    rng = ctx.rng
+    N = ctx.scale(260, 3000)
+    for i in range(N):
+        dt = rng.choice(["i4", "u1", "f4", "i8", "f8", "i2"])
+        n0, n1 = rng.randint(3, 9), rng.randint(2, 6)
+        data = ((np.arange(n0 * n1) * 7 + 3) % 23).reshape(n0, n1).astype(dt)
+        chunks = tuple(P.rand_chunks_nd(rng, (n0, n1)))
+        x = da.from_array(data, chunks=chunks)
+        kind = rng.choice(["elem-dtype", "reduce", "swv-nan", "astype", "mean", "cumsum"])
+        case = {"dtype": dt, "shape": [n0, n1], "chunks": [list(c) for c in chunks], "kind": kind}
+        try:
+            with warnings.catch_warnings():
+                warnings.simplefilter("ignore")
+                if kind == "elem-dtype":
+                    od = rng.choice(["f4", "f8", "i8", "c8"])
+                    y = da.add(x, x, dtype=od) if rng.random() < 0.5 else da.multiply(x, 2, dtype=od)
+                    ref = np.add(data, data, dtype=od) if False else None
+                    case["out_dtype"] = od
+                elif kind == "reduce":
+                    fn = rng.choice(["sum", "prod", "nansum", "max"])
+                    ax = rng.choice([0, 1, None])
+                    y = getattr(da, fn)(x, axis=ax)
+                    case.update(fn=fn, axis=ax)
+                elif kind == "swv-nan":
+                    fn = rng.choice(["nansum", "nanprod", "sum", "nanmax"])
+                    w = rng.randint(1, n0)
+                    kw = {"dtype": "f8"} if dt == "f4" and fn in ("nansum", "nanprod", "sum") and rng.random() < 0.5 else {}
+                    y = getattr(da, fn)(da.sliding_window_view(x, w, axis=0), axis=-1, **kw)
+                    case.update(fn=fn, window=w, kw=kw)
+                elif kind == "astype":
+                    od = rng.choice(["f4", "i8", "u2"])
+                    y = x.astype(od) + 1
+                    case["out_dtype"] = od
+                elif kind == "mean":
+                    y = x.mean(axis=rng.choice([0, 1]))
+                else:
+                    y = da.cumsum(x, axis=rng.choice([0, 1]))
+                post = rng.choice(["none", "take", "slice", "rechunk", "times"])
+                case["post"] = post
+                if post == "take" and y.ndim:
+                    d = y.shape[0]
+                    y = y[[rng.randint(0, d - 1) for _ in range(rng.randint(1, d + 1))]]
+                elif post == "slice" and y.ndim:
+                    y = y[::2]
+                elif post == "rechunk" and y.ndim:
+                    y = y.rechunk(tuple(P.rand_chunks_nd(rng, y.shape)))
+                elif post == "times":
+                    y = y * 2
+                adv = y.dtype
+                for opt in (True, False):
+                    with dask.config.set({"array.optimize-graph": opt}):
+                        got = np.asarray(y.compute(scheduler="sync"))
+                        fails, _ = block_failures(y, opt)
+                    ctx.count(("dtype", kind, post, dt, opt))
+                    if got.dtype != adv:
+                        ctx.fail("advertised-dtype-vs-computed", {**case, "optimize": opt, "advertised": str(adv), "computed": str(got.dtype)},
+                                 "computed result has a different dtype than advertised")
+                        break
+                    bad = [f for f in fails if f[0] == "block-dtype"]
+                    if bad:
+                        ctx.fail("block-dtype", {**case, "optimize": opt, "block": list(bad[0][1]), "got": bad[0][2], "advertised": bad[0][3]},
+                                 "a block of the materialized graph has a different dtype than advertised")
+                        break
+        except Exception as e:  # noqa: BLE001
+            ctx.notes["dtype_stream_refusals"] = ctx.notes.get("dtype_stream_refusals", 0) + 1
+            ctx.extra.setdefault("dtype_stream_refusal_examples", [])
+            if len(ctx.extra["dtype_stream_refusal_examples"]) < 3:
+                ctx.extra["dtype_stream_refusal_examples"].append({**case, "error": repr(e)[:160]})
 
 
 def block_correspondence(ctx, progs):
